@@ -10,6 +10,7 @@ BENIGN_KEYS = [
     "image", "images", "file", "files", "path", "node", "nodes", "edge", "edges", "id", "type", "class",
     "userId", "first-name", "Last Name", "createdAt", "HTTPCode", "item2", "x", "y", "z", "lat", "lon", "geo",
     "payload", "result", "results", "entry", "entries", "record", "records", "detail", "details", "extra",
+    "cafe\u0301", "nai\u0308ve", "r\u00e9sum\u00e9",
 ]
 # keys that are used for object-valued positions (class names are derived from them)
 OBJ_KEYS = [k for k in BENIGN_KEYS if k not in ("id", "type", "class", "x", "y", "z", "Last Name", "first-name")]
